@@ -32,11 +32,14 @@ class Worker:
         # difference between the instrumented alone-run and the uninstrumented oracle
         self.oracle = procs.OracleClient(env.HARNESS_HASHSEED)
         self.alone = {}                      # (K, call) -> (result, steps)
+        self.alone_changes_state = set()
 
     def alone_run(self, K, call, gran="instr", pre=()):
         key = (K, call, gran, pre)
         if key not in self.alone:
-            res, steps, herr = procs.fork_call(sched.run_alone, self.sf, K, call, gran, pre, timeout=400.0)
+            res, steps, herr, sdiff = procs.fork_call(sched.run_alone, self.sf, K, call, gran, pre, timeout=400.0)
+            if sdiff:
+                self.alone_changes_state.add(key)     # the call changes interpreter settings even when run alone
             if herr and herr.startswith("outcome:"):
                 raise AloneFailure(herr[8:], K, call, gran, pre)
             if herr:
@@ -330,10 +333,17 @@ def judge(W, spec, rec):
         raise procs.HarnessTimeout("simulated run did not finish")
     if rec["outcome"] in ("deadlock", "step-budget"):
         return {"class": rec["outcome"], "detail": {"steps": rec["steps"], "budget": spec["budget"]}}
-    if rec.get("state_diff"):
-        # all calls have returned, yet a process-global interpreter setting is not what it was
-        return {"class": "interpreter_state_changed", "detail": rec["state_diff"]}
     K = spec["table"]
+    if rec.get("state_diff"):
+        # all calls have returned, yet a process-global interpreter setting is not what it was - although
+        # each of the calls, run alone, leaves the settings as it found them
+        g = "native-line" if spec["policy"].get("gran") == "native-line" else "instr"
+        pre = tuple(spec.get("pre", ()))
+        for calls in spec["threads"]:
+            for c in calls:
+                W.alone_run(K, tuple(c), g, pre)
+        if not any((K, tuple(c), g, pre) in W.alone_changes_state for calls in spec["threads"] for c in calls):
+            return {"class": "interpreter_state_changed", "detail": rec["state_diff"]}
     for t, calls in enumerate(spec["threads"]):
         for j, c in enumerate(calls):
             want, _ = W.alone_run(K, tuple(c), "native-line" if spec["policy"].get("gran") == "native-line" else "instr",
